@@ -32,6 +32,8 @@ L_epic == <<EvNew("epic", "i1", "", "todo", "E1", "", 1), EvNew("task", "i2", "i
 L_done == <<EvNew("task", "i1", "", "todo", "T1", "", 1), EvNew("task", "i2", "", "todo", "T2", "", 2),
             EvState("i1", "done", 3)>>
 L_one  == <<EvNew("task", "i1", "", "todo", "T1", "", 1)>>
+L_manydone == [k \in 1..11 |-> EvNew("task", "i" \o ToString(k), "", "todo", "T" \o ToString(k), "", k)]
+              \o [k \in 1..10 |-> EvState("i" \o ToString(k), IF k % 2 = 0 THEN "done" ELSE "canceled", 11 + k)]
 L_hist == <<EvNew("task", "i1", "", "todo", "T1", "", 1), EvTitle("i1", "T1b", 2), EvTitle("i1", "T1c", 3),
             EvClaim("i1", "a1", 4), EvState("i1", "doing", 4), EvState("i1", "done", 5), EvUnclaim("i1", 5),
             EvNew("task", "i2", "", "todo", "T2", "", 6), EvBody("i2", "b1", 7), EvBody("i2", "b2", 8)>>
@@ -101,6 +103,9 @@ PairScenarios == {
   S("prune-newchild", L_emptyepic, P2(Prune, NewTaskIn("i1")), {}),
   \* a task created closed is pruned right after its creator let go of the lock
   S("prune-newdone", L_done, P2(Prune, TC("new_task", "", "done", ABSENT, "")), {}),
+  \* three different commands at once
+  S("compact-prunedry-claim", L_done, P3(Compact, [name |-> "prune_dry", mode |-> "json", yes |-> FALSE], Claim("a1")), {}),
+  S("plan-compact-new", L_hist, P3(PlanAB, Compact, NewTask), {}),
   S("compact-new",   L_done, P2(Compact, NewTask), {}),
   Legacy(S("compact-set", L_two, P2(Compact, SetState("i1", "done", "")), {})),
   Legacy(S("compact-new", L_done, P2(Compact, NewTask), {})),
@@ -147,6 +152,8 @@ CrashScenarios == {
   \* a log with superseded history (compaction shrinks it) and one with closed tasks inside an epic
   S("k-compact-hist", L_hist, P1(Compact), {}),
   S("k-prune-epic", L_closedepic, P1(Prune), {}),
+  \* a prune of many items (more tombstones than any fixed-size batch a writer might use)
+  S("k-prune-many", L_manydone, P1(Prune), {}),
   S("k-plan-hist", L_hist, P1(PlanAB), {}),
   S("k-plan",    L_one,  P1(PlanAB), {}),
   S("k-plan-empty", L_empty, P1(PlanAB), {}),
